@@ -126,10 +126,11 @@ CLAIMED["C04"] = dict(
          "temperature contrasts, velocities up to Mach 2), adiabatic indices, cell shapes, fixed and CFL steps, "
          "layouts and thread counts. Per step: totals of mass, momentum, energy in long double with compensated "
          "summation must agree within 1e-12 in periodic boxes (all five) and in closed boxes with reflecting walls "
-         "(mass, energy; only when no wall-adjacent cell moves towards the wall faster than its sound speed), "
+         "(mass, energy; only when no reconstructed state at a wall face runs into the wall faster than 1.5 times its "
+         "sound speed - the property's own limit, reported by the code through a guarded probe), "
          "unless a positivity clamp fired; all cell states finite and non-negative after every step.",
     note="input dimension is sampled by the swarm; conservation is not demanded in steps where a positivity clamp "
-         "fired (counted) or gas hits a wall supersonically (counted)",
+         "fired (counted) or gas hits a wall faster than Mach 1.5 (counted)",
     technique="deterministic simulation: conservation invariants checked per step over seeded schedules and inputs",
     engine="E-RHD", design_ref="6/C04")
 
